@@ -8,6 +8,8 @@ C07 - activeness and imputation follow one contract (PARTIAL; DESIGN.md section 
   iterspec    every real ApplyIterSpec of the complete encoder on the DSG templates (and synthetic ones), idx in Z symbolic:
               (idx in spec) <=> idx in set(iter(spec))   [decode without materialising vs. enumeration]
   inactive    GraphProcessor._get_inactive_value: (lo+hi)/2 in [lo, hi] for symbolic bounds lo < hi; 0 for discrete
+  enumdecode  AUXILIARY (concrete, labelled as such): on the DSG templates, listed designs carry canonical inactive values and
+              decode (create=True/False) to themselves with the listed activeness
 """
 import random
 import numpy as np
@@ -59,6 +61,8 @@ def instances(tier, seed):
         out.append(dict(label=f'iterspec {name}', c07_kind='iterspec', template=name))
     out.append(dict(label='iterspec synthetic', c07_kind='iterspec', template=None))
     out.append(dict(label='inactive_value', c07_kind='inactive'))
+    for name in dsg_pool.TEMPLATES:
+        out.append(dict(label=f'enum_vs_decode {name}', c07_kind='enumdecode', template=name))
     return out
 
 
@@ -132,7 +136,9 @@ def _synthetic_specs():
     from adsg_core.optimization.hierarchy.complete import ApplyIterSpec
     out = []
     for n_every, offsets, n_total in [(4, [(0, 2)], 12), (4, [(1, 1), (3, 1)], 8), (6, [(0, 1), (2, 3)], 18), (5, [(4, 1)], 10),
-                                      (3, [(0, 3)], 9), (1, [(0, 1)], 4), (7, [(2, 2), (5, 2)], 21), (8, [(0, 8)], 8)]:
+                                      (3, [(0, 3)], 9), (1, [(0, 1)], 4), (7, [(2, 2), (5, 2)], 21), (8, [(0, 8)], 8),
+                                      (200, [(5*i, 2) for i in range(40)], 400), (72, [(2*i, 1) for i in range(36)], 144),
+                                      (99, [(3*i+1, 2) for i in range(33)], 198)]:
         out.append(ApplyIterSpec(scenario=None, i_scenario=0, i_usi=0, i_comb=0, n_every=n_every, offsets=offsets, n_total=n_total))
     return out
 
@@ -197,6 +203,56 @@ def _run_iterspec(inst, res):
         res['notes'].append('no iteration specs for this template')
 
 
+def _run_enumdecode(inst, res):
+    """AUXILIARY, concrete (not a solver verdict; DESIGN.md 1.3): on the hand-written templates, every enumerated design
+    reports inactive variables at the canonical value, a variable not flagged conditionally active is active in every
+    row, and decoding each row with and without materialising the instance returns the row and its activeness."""
+    from adsg_core import GraphProcessor
+    gp, g, info = dsg_pool.make_processor(inst['template'])
+    x_all, act_all = gp.get_all_discrete_x()
+    dvs = gp.des_vars
+    name = inst['template']
+    for r, a in zip(np.array(x_all).tolist(), np.array(act_all).tolist()):
+        res['obligations'] += 1
+        problems = []
+        for i, dv in enumerate(dvs):
+            canon = 0 if dv.is_discrete else (dv.bounds[0]+dv.bounds[1])/2
+            if not a[i] and r[i] != canon:
+                problems.append(f'inactive variable {dv.name} listed at {r[i]}, canonical value {canon}')
+            if not a[i] and not dv.conditionally_active:
+                problems.append(f'variable {dv.name} is inactive in a listed design but not flagged conditionally active')
+        dec = []
+        for create in (True, False):
+            try:
+                _, xi, ai = gp.get_graph(list(r), create=create)
+                dec.append(([float(v) for v in xi], [bool(v) for v in ai]))
+            except Exception as e:  # noqa
+                dec.append(f'{type(e).__name__}: {e}')
+        want = ([float(v) for v in r], [bool(v) for v in a])
+        # continuous active entries are listed at 0 by the enumeration (only discrete x are enumerated): compare those loosely
+        def same(d):
+            if not isinstance(d, tuple):
+                return False
+            for i, dv in enumerate(dvs):
+                if d[1][i] != want[1][i]:
+                    return False
+                if dv.is_discrete or not want[1][i]:
+                    if d[0][i] != want[0][i]:
+                        return False
+            return True
+        for create, d in zip((True, False), dec):
+            if not same(d):
+                problems.append(f'decode(create={create}) of listed row gives {d}')
+        if problems:
+            _viol(res, 'enum_vs_decode', dict(kind='enumeration_vs_decode', template=name, what=problems[0].split(' ')[0]), dict(template=name),
+                  dict(row=r, active=a), problems[:3], 'canonical inactive values; decode of a listed row returns it with the same activeness')
+        else:
+            res['discharged'] += 1
+        res['validated'] += 1
+    res['paths'] = max(1, len(x_all))
+    res['sample'] = dict(harness=inst['label'], rows=len(x_all), note='auxiliary concrete check')
+
+
 def _run_inactive(inst, res):
     from adsg_core import GraphProcessor
     from adsg_core.optimization.dv_output_defs import DesVar
@@ -245,6 +301,12 @@ def replay(rec):
         v = a['inputs']['idx']
         print(f'spec n_every={n_every} offsets={offsets} n_total={n_total}: {v} in spec = {v in spec}; in set(iter(spec)) = {v in set(iter(spec))}')
         return (v in spec) != (v in set(iter(spec)))
+    if a['check'] == 'enum_vs_decode':
+        res = new_result('replay')
+        _run_enumdecode(dict(label='replay', template=a['config']['template']), res)
+        for v in res['violations'][:2]:
+            print(v['input'], v['observed'])
+        return len(res['violations']) > 0
     if a['check'] == 'correct_is_active':
         from adsg_core.optimization.assign_enc.assignment_manager import AssignmentManagerBase
         vec = a['inputs']['vector']
